@@ -15,6 +15,7 @@ from .model import Program, AnalysisError
 from .driver import World, product_contexts
 from .interp import AbsRaise, _Return
 from .values import *
+from .traceutil import is_writer_delivery
 
 TIERS = {
     # max_dev: bound on decisions per path that deviate from the default option
@@ -63,7 +64,7 @@ class CommandRun:
         self.cm_body = cm_body
         self.max_paths = max_paths
         self.nanable = nanable
-        self.jobs = jobs or min(16, os.cpu_count() or 1)
+        self.jobs = jobs or int(os.environ.get("GSVERIF_JOBS") or 0) or min(16, os.cpu_count() or 1)
         self.stats = {}
         # World invariant, discharged by this very run (see run()): between two
         # commands the halt mode is OFF.  While it is inductive the worlds
@@ -141,6 +142,13 @@ class CommandRun:
                     broken.append(w)
             if only_invariant:
                 return
+            for e in res.trace:
+                if is_writer_delivery(e):
+                    v = e.data["args"][0] if e.data["args"] else None
+                    v = v.s if isinstance(v, Bytes) else v
+                    if isinstance(v, Unk) and v.typ == "ext":
+                        raise AnalysisError(f"{name}({desc}): the line handed to the writers is the result of a call the analysis does not model "
+                                            f"({v.tag}); its content cannot be followed, so nothing is decided")
             r = analyse(W, name, f, ctx, desc, res)
             if r:
                 items.extend(r)
